@@ -71,6 +71,9 @@ def run_m(ctx, out):
 
 def run(ctx, out):
     run_m(ctx, out)
+    # spellings of the manifest's own name (-f ./build.ninja) resolve to the manifest node: run harness with the real load::read
+    from checks import runlib as R
+    R.run_run(ctx, out, 'C13', {'C17'}, report={'C17'}, real_read=True, g1s=('plain',), g2s=('same',))
     if ctx.quick():
         safe, full = range(1, 7), range(1, 5)
         timeout = 900
